@@ -319,7 +319,39 @@ func execC17(t *testing.T, sc *world.Scenario) (*oracle.Result, string) {
 	return r, ""
 }
 
+// execC17Switch: the encrypt parameter is given a value that plainly asks for encryption but
+// is not one of the two documented spellings; with a valid key present. Either the open fails,
+// or what is stored is encrypted - never a cache that silently stores plaintext.
+func execC17Switch(c c17Case, dir string, r *oracle.Result) (*oracle.Result, string) {
+	key := aesKey(32, 7)
+	dsn := "fscache://" + dir + "?appname=app&encrypt=" + queryEscape(c.BadKey) + "&encrypt_key=" + queryEscape(key)
+	os.Setenv("FSCACHE_ENCRYPT_KEY", key)
+	defer os.Unsetenv("FSCACHE_ENCRYPT_KEY")
+	conn, err := store.Open(dsn)
+	r.Evals++
+	r.NonTrivial = true
+	r.NTKeys = append(r.NTKeys, "switch/"+c.BadKey)
+	if err != nil {
+		r.Label("switch-rejected")
+		return r, ""
+	}
+	value := world.ExpandValue(64, 9)
+	_ = conn.Set("http://a.test/cfg#0", value)
+	for _, f := range filesUnder(dir) {
+		b, _ := os.ReadFile(f)
+		if plaintextWindow(b, value) >= 0 {
+			r.Fail("C17", "encryption-requested-but-plaintext:"+c.BadKey, -1, "opened with encrypt=%s and a valid key (DSN and environment): the open succeeded and the value is stored in plaintext", c.BadKey)
+			return r, ""
+		}
+	}
+	r.Label("switch-accepted-and-encrypted")
+	return r, ""
+}
+
 func execC17Config(c c17Case, dir string, r *oracle.Result) (*oracle.Result, string) {
+	if c.KeyTag == "switch" {
+		return execC17Switch(c, dir, r)
+	}
 	keyPresent := c.KeyTag != "absent"
 	conn, err := c17Open(c.Path, dir, c.BadKey, keyPresent)
 	r.Evals++
@@ -404,6 +436,11 @@ func TestC17Config(t *testing.T) {
 		{"whitespace", " 6S-Ks2YYOW0xMvTzKSv6QD30gZeOi1c6Ydr-As5csWk="}, {"empty", ""}, {"absent", ""},
 	}
 	RunEnum(t, checkC17, func(yield func(*world.Scenario) bool) {
+		for _, v := range []string{"ON", "On", "AESGCM", "aes-gcm", "aes", "true", "1", "yes", "enabled", "on ", "encrypt"} {
+			if !yield(mkC17(c17Case{Kind: "config", Path: "dsn-switch", BadKey: v, KeyTag: "switch"})) {
+				return
+			}
+		}
 		for _, p := range c17Paths {
 			for _, b := range bad {
 				if p == "option" && b[0] == "absent" {
